@@ -1,6 +1,19 @@
-// Package rand is the simulator's stand-in for math/rand: every value comes
-// from the simulator's hash-addressed name stream, so that table-name
-// suffixes are a function of (run seed, task, counter).
+// Package rand is the simulator's stand-in for math/rand.
+//
+// What a process gets from math/rand depends on how the generator was made,
+// and the shim keeps those cases apart because table names depend on them:
+//
+//   - a generator created at package initialisation (the library's
+//     randomRandom, seeded with the start time of the process): one stream
+//     per simulated process, from the simulator's hash-addressed name stream
+//     (run seed, task, counter) - processes start at different times;
+//   - a generator created by a running process with an explicit seed, or
+//     re-seeded with Seed: a function of that seed and a counter alone, as
+//     in the real package (equal seeds give equal sequences);
+//   - the top-level functions (rand.Uint32(), ...): per process and random
+//     where the runtime seeds them at start (Go >= 1.20), the SAME sequence
+//     in every process where it does not (Go < 1.20, GODEBUG=randautoseed=0;
+//     the library's go.mod says go 1.12) - chosen per run from the run seed.
 package rand
 
 import "verifsim/simrt"
@@ -10,35 +23,77 @@ type Source interface {
 	Seed(seed int64)
 }
 
-type simSource struct{}
+type simSource struct {
+	seeded bool
+	seed   uint64
+	ctr    uint64
+}
 
-func (simSource) Int63() int64    { return int64(simrt.NameValue() >> 1) }
-func (simSource) Seed(seed int64) {}
+func (s *simSource) value() uint64 {
+	if s.seeded {
+		s.ctr++
+		return simrt.Hash4(s.seed, "rand-src", 0, s.ctr)
+	}
+	return simrt.NameValue()
+}
+func (s *simSource) Int63() int64 { return int64(s.value() >> 1) }
+func (s *simSource) Seed(seed int64) {
+	s.seeded, s.seed, s.ctr = true, uint64(seed), 0
+}
 
-func NewSource(seed int64) Source { return simSource{} }
+func NewSource(seed int64) Source {
+	if simrt.InTask() {
+		return &simSource{seeded: true, seed: uint64(seed)}
+	}
+	return &simSource{}
+}
 
-type Rand struct{}
+type Rand struct {
+	src    Source
+	global bool
+}
 
-func New(src Source) *Rand { return &Rand{} }
+func New(src Source) *Rand { return &Rand{src: src} }
 
-func (r *Rand) Uint32() uint32   { return uint32(simrt.NameValue() >> 32) }
-func (r *Rand) Uint64() uint64   { return simrt.NameValue() }
-func (r *Rand) Int63() int64     { return int64(simrt.NameValue() >> 1) }
-func (r *Rand) Int31() int32     { return int32(simrt.NameValue() >> 33) }
-func (r *Rand) Int() int         { return int(uint(simrt.NameValue()) >> 1) }
-func (r *Rand) Float64() float64 { return float64(simrt.NameValue()>>11) / float64(1<<53) }
-func (r *Rand) Seed(seed int64)  {}
+func (r *Rand) v() uint64 {
+	if r.global {
+		return simrt.GlobalRandValue()
+	}
+	if s, ok := r.src.(*simSource); ok {
+		return s.value()
+	}
+	if r.src != nil {
+		return uint64(r.src.Int63())<<1 ^ uint64(r.src.Int63())>>31
+	}
+	return simrt.NameValue()
+}
+
+func (r *Rand) Uint32() uint32   { return uint32(r.v() >> 32) }
+func (r *Rand) Uint64() uint64   { return r.v() }
+func (r *Rand) Int63() int64     { return int64(r.v() >> 1) }
+func (r *Rand) Int31() int32     { return int32(r.v() >> 33) }
+func (r *Rand) Int() int         { return int(uint(r.v()) >> 1) }
+func (r *Rand) Float64() float64 { return float64(r.v()>>11) / float64(1<<53) }
+func (r *Rand) Seed(seed int64) {
+	if r.global {
+		simrt.GlobalRandSeed(seed)
+		return
+	}
+	if r.src != nil {
+		r.src.Seed(seed)
+	}
+}
 func (r *Rand) Intn(n int) int {
 	if n <= 0 {
 		panic("invalid argument to Intn")
 	}
-	return int(simrt.NameValue() % uint64(n))
+	return int(r.v() % uint64(n))
 }
 func (r *Rand) Int63n(n int64) int64 {
 	if n <= 0 {
 		panic("invalid argument to Int63n")
 	}
-	return int64(simrt.NameValue() % uint64(n))
+	return int64(r.v() % uint64(n))
 }
 func (r *Rand) Int31n(n int32) int32 { return int32(r.Int63n(int64(n))) }
 func (r *Rand) Perm(n int) []int {
@@ -57,10 +112,16 @@ func (r *Rand) Shuffle(n int, swap func(i, j int)) {
 		swap(i, r.Intn(i+1))
 	}
 }
+func (r *Rand) Read(p []byte) (int, error) {
+	for i := range p {
+		p[i] = byte(r.v() >> 24)
+	}
+	return len(p), nil
+}
 
-var global = &Rand{}
+var global = &Rand{global: true}
 
-func Seed(seed int64)                    {}
+func Seed(seed int64)                    { global.Seed(seed) }
 func Uint32() uint32                     { return global.Uint32() }
 func Uint64() uint64                     { return global.Uint64() }
 func Int63() int64                       { return global.Int63() }
@@ -72,3 +133,4 @@ func Int31n(n int32) int32               { return global.Int31n(n) }
 func Float64() float64                   { return global.Float64() }
 func Perm(n int) []int                   { return global.Perm(n) }
 func Shuffle(n int, swap func(i, j int)) { global.Shuffle(n, swap) }
+func Read(p []byte) (int, error)         { return global.Read(p) }
